@@ -455,3 +455,38 @@ Theorem doc_roundtrip_hist (hist : list (option text * list (option text))) a :
 Proof.
   intros ss Hok. split; [apply doc_roundtrip_xmi|apply doc_roundtrip_json]; try exact Hok; apply sofa_run_all_track.
 Qed.
+
+(* ------------------------------------------------------------------------- annotations that change their view *)
+(* after any sequence of add / remove / sofa and offset assignments the annotation's own sofa is that of the view it was
+   added to (or assigned to) last, and its offsets are the ones assigned last *)
+Lemma ann_run_last a ops :
+  ann_run a ops = mkDann (last_view ops (da_view a)) (fst (last_off ops (da_b a, da_e a)))
+                         (snd (last_off ops (da_b a, da_e a))).
+Proof.
+  unfold ann_run. revert a. induction ops as [|o r IH]; intros a.
+  - destruct a; reflexivity.
+  - cbn [fold_left]. rewrite IH. destruct o; reflexivity.
+Qed.
+
+(* hence such an annotation is written with the UTF-16 offsets in the text of the view it belongs to NOW, not of a view
+   it was a member of earlier *)
+Theorem moved_offsets_are_utf16 (hist : list (option text * list (option text))) a ops :
+  let ss := map (fun h => sofa_run (fst h) (snd h)) hist in
+  let v := last_view ops (da_view a) in
+  ann_okb ss (ann_run a ops) = true ->
+  exists t b e, s_text (sofa_of ss v) = Some t /\ last_off ops (da_b a, da_e a) = (Some b, Some e) /\
+    0 <= b <= e /\ e <= Z.of_nat (List.length t) /\
+    write_ann ss (ann_run a ops) = mkDann v (Some (utf16_len (firstn (Z.to_nat b) t)))
+                                            (Some (utf16_len (firstn (Z.to_nat e) t))).
+Proof.
+  intros ss v Hok.
+  destruct (ann_okb_spec ss _ Hok) as [t0 [b0 [e0 [Ht0 [Hb0 [He0 [H1 H2]]]]]]].
+  destruct (doc_offsets_are_utf16 hist (ann_run a ops) Hok) as [t [b [e [Ht [Hb [He Hw]]]]]].
+  fold ss in Ht, Hw. rewrite Ht in Ht0. rewrite Hb in Hb0. rewrite He in He0.
+  injection Ht0 as <-. injection Hb0 as <-. injection He0 as <-.
+  rewrite ann_run_last in Ht, Hb, He. cbn [da_view da_b da_e] in Ht, Hb, He.
+  exists t, b, e. split; [exact Ht|]. split.
+  { destruct (last_off ops (da_b a, da_e a)) as [x y]. cbn [fst snd] in Hb, He. subst. reflexivity. }
+  split; [lia|]. split; [lia|].
+  rewrite Hw. rewrite ann_run_last. reflexivity.
+Qed.
